@@ -116,7 +116,7 @@ def planted_streams(rng, quick=True):
 def config_env(rng, big=False):
     """A random decompression configuration (hook overrides)."""
     env = {'LBZIP2_VERIF_CHECK': '1'}
-    ig = rng.choice([4, 8, 12, 64, 4096, 262144] if not big else
+    ig = rng.choice([4, 8, 12, 64, 124, 128, 132, 4096, 262144] if not big else
                     [4096, 65536, 262144])
     og = rng.choice([1, 2, 3, 7, 64, 900000] if not big else
                     [4096, 65536, 900000])
